@@ -30,6 +30,8 @@ def legal_steps(tm, version, present_ids, with_tags=False):
                         steps.append(("deltag", nm, tag))
                 if "RC" in r.tags:
                     steps.append(("deltag", nm, "RC"))
+            if with_tags and r.rt in ("L", "C") and "ID" in r.tags and not any(m == nm for x in tm.recs for m, _ in tm.mentions(x)):
+                steps.append(("deltag", nm, "ID"))         # the identifier of a link / containment is a tag: deleting it makes the line anonymous
         elif r.rt in ANON[version]:
             steps.append(("rm_line", r.text()))
     cat = universe.CAT[version]
